@@ -40,7 +40,7 @@ theorem redirect_patterns_shape :
 /-- the scheme tables of the running `urllib.parse` are the ones copied into the `urljoin`
 model -/
 theorem urllib_tables_unchanged :
-    Gen.usesRelative = Py.usesRelative ∧ Gen.usesNetloc = Py.usesNetloc ∧
+    Gen.usesRelative = Py.usesRelative ∧ Gen.usesNetloc = Py.usesNetloc20 ∧
     Gen.usesParams = Py.usesParams := by decide
 
 /-- `PROTOCOL_RE` (used to tell scheme-less urls) is the one `protoLen` models -/
